@@ -11,6 +11,8 @@ pub(crate) fn track_and_groundspeed(
     is_supersonic: bool,
 ) -> (Option<u32>, Option<u32>) {
     let sp_west = match flag_and_range_value(message, 46, 47, 56) {
+        // a velocity field of 0 means "no information"
+        Some((_, 0)) => return (None, None),
         Some((dir_west, speed_west)) => match dir_west {
             1 => -(speed_west as f64 - 1.0),
             _ => speed_west as f64 - 1.0,
@@ -19,6 +21,7 @@ pub(crate) fn track_and_groundspeed(
     };
 
     let sp_south = match flag_and_range_value(message, 57, 58, 67) {
+        Some((_, 0)) => return (None, None),
         Some((dir_south, speed_south)) => match dir_south & 1 {
             1 => -(speed_south as f64 - 1.0),
             _ => speed_south as f64 - 1.0,
